@@ -29,7 +29,7 @@ import (
 )
 
 func init() {
-	for _, n := range []string{"xvsValues", "xvalValues", "xpsList", "xpsValues", "xunmarkDeepWithPaths", "xpsUnion", "xpsSubtract"} {
+	for _, n := range []string{"xvsValues", "xvalValues", "xunmarkDeepWithPaths", "xpsUnion", "xpsSubtract"} {
 		c20copying[n] = true
 	}
 }
@@ -172,7 +172,9 @@ func (h *c20H) c20xDo(op *c20Op) (wire, golit string, ok bool) {
 				applies = false
 				return
 			}
-			h.pushGo(&c20Go{kind: "paths", paths: g.ps.List(), origin: "xpsList"})
+			// origin "psList": the member paths themselves are handed out (documented: paths are immutable by convention),
+			// the same class as the abstract psList of the 49-call fragment — `classify` files a write to one of them there
+			h.pushGo(&c20Go{kind: "paths", paths: g.ps.List(), origin: "psList", holdsWalkPath: g.holdsWalkPath})
 			apiWire, apiLit = fmt.Sprintf("(xpsList %d)", op.a), fmt.Sprintf("%s := %s.List()", gname(ng), gname(op.a))
 		case "xpsValues":
 			g := h.gk(op.a, "pset")
@@ -180,7 +182,7 @@ func (h *c20H) c20xDo(op *c20Op) (wire, golit string, ok bool) {
 				applies = false
 				return
 			}
-			h.pushGo(&c20Go{kind: "paths", paths: c20innerSetOfPS(g.ps).Values(), origin: "xpsValues"})
+			h.pushGo(&c20Go{kind: "paths", paths: c20innerSetOfPS(g.ps).Values(), origin: "psList", holdsWalkPath: g.holdsWalkPath})
 			apiWire, apiLit = fmt.Sprintf("(xpsValues %d)", op.a), fmt.Sprintf("%s := inner(%s).Values()  // set.Set[cty.Path].Values()", gname(ng), gname(op.a))
 		case "xunify":
 			g := h.gk(op.a, "types")
